@@ -93,15 +93,15 @@ Proof. vm_compute. repeat split; reflexivity. Qed.
    num_qubits / num_clbits are the total register sizes of the flat program it stands for -- which declares exactly the
    registers the source declares.  (validate() visits the first iteration of a loop only; the counts do not depend on it.) *)
 Theorem C10_counts_of_a_program_with_loops_and_gate_definitions fuel p q evs :
-  gexpand env0 [] p = Some (q, evs) -> (ldepth p + 1 < fuel)%nat ->
+  gexpand env0 [] p = Some (q, evs) -> (ldepth p + 1 < fuel)%nat -> (gate_nesting < fuel)%nat ->
   (exists o, run_visit false true [] fuel p = Ok o /\
              num_qubits (o_state o) = total_qubits q /\ num_clbits (o_state o) = total_clbits q) /\
   (exists o, run_visit false false [] fuel p = Ok o /\ o_stmts o = q /\
              num_qubits (o_state o) = total_qubits q /\ num_clbits (o_state o) = total_clbits q).
 Proof.
-  intros Hx Hf. split.
-  - exact (programs_of_the_judgement_are_accepted_by_validate fuel p q evs Hx Hf).
-  - destruct (programs_with_gate_definitions_unroll_to_their_expansion fuel p q evs Hx Hf) as (o & E & Ho & _ & A & B & _).
+  intros Hx Hf HN. split.
+  - exact (programs_of_the_judgement_are_accepted_by_validate fuel p q evs Hx Hf HN).
+  - destruct (programs_with_gate_definitions_unroll_to_their_expansion fuel p q evs Hx Hf HN) as (o & E & Ho & _ & A & B & _).
     exists o. repeat split; assumption.
 Qed.
 Print Assumptions C10_counts_of_a_program_with_loops_and_gate_definitions.
